@@ -836,6 +836,11 @@ pub fn gen_doc(m: &Material, lang: SupportLang, rng: &mut Rng) -> GenDoc {
     if inject(f, &mut g, m, rng) {
       g.faults.push(f);
     }
+    // `yaml_err` is a verdict about the document as it is now: a later fault could overwrite the
+    // offending value (`deep` and `no_kinds` replace the whole rule) and leave the verdict stale
+    if g.yaml_err {
+      break;
+    }
   }
   // the generated base document may itself contain order-dependent errors (two utilities, two
   // constraints ...): the variant is compared only when at most one map entry can be at fault
